@@ -45,6 +45,7 @@ type WorldCfg struct {
 	StallProb     float64       `json:"stall_prob,omitempty"`
 	StallMax      time.Duration `json:"stall_max,omitempty"`
 	SortedMaps    bool          `json:"sorted_maps,omitempty"`
+	SelectOrder   string        `json:"select_order,omitempty"`
 	Net           NetCfg        `json:"net"`
 	Modules       []string      `json:"modules"`
 	Flags         []string      `json:"flags,omitempty"`
@@ -113,7 +114,7 @@ func NewWorld(cfg WorldCfg) *World {
 	w := &World{cfg: cfg, ledger: newLedger()}
 	w.sim = simrt.New(simrt.Config{
 		Seed: cfg.Seed, Policy: cfg.Policy, Sticky: cfg.Sticky, PCTDepth: cfg.PCTDepth, PCTLen: cfg.PCTLen,
-		StallProb: cfg.StallProb, StallMax: cfg.StallMax, SortedMaps: cfg.SortedMaps, Trace: cfg.Trace, MaxSteps: cfg.MaxSteps,
+		StallProb: cfg.StallProb, StallMax: cfg.StallMax, SortedMaps: cfg.SortedMaps, SelectOrder: cfg.SelectOrder, Trace: cfg.Trace, MaxSteps: cfg.MaxSteps,
 	})
 	w.netr = simrt.NewRand(cfg.Seed, "net")
 	seedUUID(cfg.Seed)
@@ -318,8 +319,8 @@ func (w *World) latency() time.Duration {
 func (w *World) deliverToClient(c *Conn, chunk []byte) {
 	now := w.sim.Now()
 	at := now + w.latency()
-	if at <= c.lastOutAt {
-		at = c.lastOutAt + time.Nanosecond
+	if at < c.lastOutAt {
+		at = c.lastOutAt
 	}
 	c.lastOutAt = at
 	cl := c.client
@@ -335,8 +336,8 @@ func (w *World) deliverToClient(c *Conn, chunk []byte) {
 func (w *World) serverClosed(c *Conn) {
 	now := w.sim.Now()
 	at := now + w.latency()
-	if at <= c.lastOutAt {
-		at = c.lastOutAt + time.Nanosecond
+	if at < c.lastOutAt {
+		at = c.lastOutAt
 	}
 	c.lastOutAt = at
 	cl := c.client
@@ -356,9 +357,13 @@ func (w *World) sendToServer(c *Conn, b []byte) {
 		chunk := append([]byte(nil), b[:n]...)
 		b = b[n:]
 		now := w.sim.Now()
-		at := now + w.latency()
-		if at <= c.lastInAt {
-			at = c.lastInAt + time.Nanosecond
+		// bytes written at the same instant travel together (one segment, or back to back)
+		if now != c.lastSendNow || c.lastSendLat == 0 {
+			c.lastSendNow, c.lastSendLat = now, w.latency()
+		}
+		at := now + c.lastSendLat
+		if at < c.lastInAt {
+			at = c.lastInAt // FIFO: equal times keep their order through the event sequence number
 		}
 		c.lastInAt = at
 		w.sim.After(at-now, "net>s", func() {
@@ -374,8 +379,8 @@ func (w *World) sendToServer(c *Conn, b []byte) {
 func (w *World) clientFIN(c *Conn) {
 	now := w.sim.Now()
 	at := now + w.latency()
-	if at <= c.lastInAt {
-		at = c.lastInAt + time.Nanosecond
+	if at < c.lastInAt {
+		at = c.lastInAt
 	}
 	c.lastInAt = at
 	w.sim.After(at-now, "net>s.fin", func() {
